@@ -597,6 +597,14 @@ def _evpn(tier):
     for a, b, c in itertools.permutations((1, 2, 3, 4), 3):
         for case in emit([one[a], one[b], one[c]], ['n=many', 'type=%d+%d+%d' % (a, b, c)]):
             yield case
+    # a route whose label field is a boundary value (0, 524288 = 0x800000 on the wire, all ones), with another route behind it:
+    # a label scan that runs past the route's own octets shows only then
+    for t in (1, 2):
+        for stack in ([0], [524288], [2 ** 20 - 1]) + (([16, 0], [0, 0]) if t == 2 else ()):
+            first = _evpn_route(t, RDS_FEW[1], ESIS_FEW[1], ETAGS[1], MACS[1], EVPN_IPS[0], stack)
+            for b in (1, 2, 3, 4):
+                for case in emit([first, one[b]], ['n=2', 'type=%d+%d' % (t, b), 'first-' + _stack_cv(stack)]):
+                    yield case
     # route type 5 (RFC 9136), not in C07's list but decoded and constructed by yabgp
     gws = {4: ('0.0.0.0', '10.0.0.1'), 6: ('::', '2001:db8::1')}
     for ver, lengths in ((4, V4_EDGE_LENGTHS), (6, V6_EDGE_LENGTHS)):
